@@ -543,6 +543,7 @@ def run(ctx):
         tasks.append(dict(foreign=True, n0=4))
         tasks.append(dict(foreign=True, n0=100))
         tasks.append(dict(history=True, depth=4 if ctx.quick else 6))
+        tasks += [dict(live=True, first=e, depth=3 if ctx.quick else 4) for e in LIVE_EVENTS]
         ctx.pmap("mzcheck.checks.c11", "dispatch", tasks)
     finally:
         shutil.rmtree(recdir, ignore_errors=True)
@@ -552,7 +553,8 @@ def run(ctx):
                         foreign_pairs=2 * len(foreign_family()) * (len(foreign_family()) - 1), foreign_families=["n0=4 (full format files)", "n0=100 (minimal format files)"],
                         history_layer=dict(states=c.get("hist_states", 0), transitions=c.get("hist_transitions", 0), max_depth=c.get("hist_max_depth", 0),
                                            requests_judged_events=[list(e) for e in hist_events()],
-                                           mismatch_raised=c.get("hist_mismatch_raised", 0)))
+                                           mismatch_raised=c.get("hist_mismatch_raised", 0)),
+                        live_config_layer=dict(events=LIVE_EVENTS, depth=3 if ctx.quick else 4, sequences=c.get("live_sequences", 0)))
     ctx.rule = ("crash images = every prefix of the recorded file-API write log of a real save (last write torn at 0,1,half,len-1; every byte in thorough), "
                 "truncation at a dense stride + all offsets near the end and around write boundaries (every offset in thorough), single-byte corruptions, "
                 "appended garbage, missing/empty file; foreign files for all ordered pairs of a one-field-different family; cache-protocol layer: explicit-state BFS over the "
@@ -569,6 +571,8 @@ def dispatch(t, res):
         foreign_task(t, res)
     elif t.get("history"):
         history_task(t, res)
+    elif t.get("live"):
+        live_task(t, res)
     else:
         image_task(t, res)
 
@@ -583,6 +587,9 @@ def replay(d, res):
         return
     if d["kind"] == "history":
         replay_history(d, res)
+        return
+    if d["kind"] == "live":
+        run_live(list(d["seq"]), res, only_last=True)
         return
     spec = d["spec"]
     if "kw" in spec:
@@ -625,3 +632,83 @@ def replay_history(d, res):
     finally:
         time.time = real_time
         shutil.rmtree(dd, ignore_errors=True)
+
+
+# ------------------------------------------------------------------ layer 4: one live configuration object, edited in place between requests
+# The cache slot of a request is the file named after the configuration AS IT IS NOW (name, grid, count, generator, hash of the content).
+# Every sequence (up to a depth) of requests and in-place field edits on ONE config object over one cache directory: each request must
+# return a fresh generation's mazes for the current field values, must not raise (no foreign file is ever put anywhere), and must leave
+# a loadable file with those mazes under the name a freshly built configuration with the same fields has.
+LIVE_EVENTS = ["req", "seed=43", "seed=42", "grid_n=4", "grid_n=3", "n_mazes=12", "n_mazes=9", "name=c11live2"]
+
+
+def _live_fields():
+    return dict(gen="gen_dfs", kw={}, n=9, seed=42, grid=3, name="c11live", filters=[("cut_percentile_shortest", (40.0,), {})])
+
+
+def run_live(seq, res, only_last=False):
+    from maze_dataset import MazeDataset
+
+    cur = _live_fields()
+    cfg = make_cfg(cur)
+    d = tempfile.mkdtemp(prefix="mzc11l.", dir=TMP_ROOT)
+    try:
+        last_edit = "no_edit"
+        for k, ev in enumerate(seq):
+            if ev != "req":
+                fld, val = ev.split("=")
+                val = val if fld == "name" else int(val)
+                setattr(cfg, fld, val)
+                cur[dict(seed="seed", grid_n="grid", n_mazes="n", name="name")[fld]] = val
+                last_edit = fld
+                continue
+            if only_last and k != len(seq) - 1:
+                try:
+                    MazeDataset.from_config(cfg, local_base_path=d, do_download=False)
+                except Exception:  # noqa: BLE001
+                    pass
+                continue
+            res.ev()
+            rd = dict(kind="live", seq=list(seq[:k + 1]))
+            fresh = make_cfg(cur)
+            want = fresh_fp(cur)
+            want_name = fresh.to_fname() + ".zanj"
+            nreq = sum(1 for e in seq[:k] if e == "req")
+            tag = f"after_edit:{last_edit}|{'first_request' if nreq == 0 else 'later_request'}"
+            what = f"one live config object, event sequence {list(seq[:k + 1])} (fields now {cur})"
+            try:
+                ds = MazeDataset.from_config(cfg, local_base_path=d, do_download=False)
+            except Exception as e:
+                res.fail(f"C11|live_config|{tag}|raised|{type(e).__name__}", f"{what}: the request raised {type(e).__name__}: {str(e)[:150]} although only this "
+                         f"object's own earlier requests wrote to the cache directory", rd)
+                return False
+            if fp(ds) != want:
+                res.fail(f"C11|live_config|{tag}|wrong_data", f"{what}: returned {len(ds)} mazes that differ from a fresh generation for the current field values", rd)
+                return False
+            p = os.path.join(d, want_name)
+            try:
+                ok = os.path.exists(p) and fp(MazeDataset.read(p)) == want
+            except Exception:  # noqa: BLE001
+                ok = False
+            if not ok:
+                res.fail(f"C11|live_config|{tag}|file_not_under_current_name", f"{what}: no loadable file with the returned mazes under {want_name} "
+                         f"(directory holds {sorted(os.listdir(d))})", rd)
+                return False
+        return True
+    finally:
+        shutil.rmtree(d, ignore_errors=True)
+
+
+def live_task(t, res):
+    import itertools
+
+    n = 0
+    for dpt in range(1, t["depth"] + 1):
+        for seq in itertools.product(LIVE_EVENTS, repeat=dpt):
+            if seq[0] != t["first"] or seq[-1] != "req":
+                continue
+            if run_live(seq, res):
+                res.nontrivial(("live", seq))
+            n += 1
+    res.count("live_sequences", n)
+    res.sample(dict(layer="live config", example=[t["first"], "seed=43", "req"]), cap=1)
